@@ -70,7 +70,7 @@ class Rnd:
 
 
 class Env:
-    def __init__(self, fuel=4000):
+    def __init__(self, fuel=1000):
         self.limit = fuel
         self.fuel = fuel
         self.gid = 0
@@ -673,7 +673,7 @@ _SEM = {
 }
 
 
-def denote(expr, cap=24, fuel=4000):
+def denote(expr, cap=24, fuel=1000):
     """First `cap` items of the sequence denoted by `expr` and how it goes on:
     'end' (the sequence is exactly these items), 'more' (at least one more
     item exists), 'diverge' (no further item and no end), 'dontcare' (the
